@@ -6,6 +6,7 @@ import TongoProofs.Lemmas.BitStringCanon
 import TongoProofs.Lemmas.BitStringTopUp
 import TongoProofs.Lemmas.BitStringCell
 import TongoProofs.Lemmas.BitStringZOps
+import TongoProofs.Lemmas.CellSeqSim
 /-! Property C06 — bit-string and cell read/write primitives behave like an ideal bit list.
 Property theorems only; helper lemmas live in `TongoProofs/Lemmas/BitString*.lean`.
 
@@ -436,6 +437,69 @@ example :
       | _ => ([], [], 9)) =
       ([true, true, false], [natToBits 4 2, natToBits 4 3], 0) ∧ c.copyRemaining.2.refCursor = 1 := by
   decide +kernel
+
+/-! ## Cell-level operation sequences over a heap of cells (aliasing explicit) -/
+
+open CellSeq in
+/-- `cell_ops_sequence` — the lifted statement at cell level. Cells live in a heap and reference each other by index
+(so sharing, self-reference and the pointer semantics of `AddRef`/`NextRef`/`CopyRemaining` are explicit). For every
+list of (target cell, operation) pairs — every bit-string method through the `Cell` wrappers with `int` arguments of
+any sign, `NewCell`, `AddRef`, `NewRef`, `NextRef`, `ResetCounters`, `CopyRemaining`, `RefsSize`,
+`RefsAvailableForRead`, `BitsAvailableForRead/Write` — started from `NewCell()`, the model of the Go code (byte-level
+bit strings) and the ideal specification (bit list + cursor, reference list + cursor per cell) produce the same list of
+outcomes (values, errors and panics alike), and afterwards every cell's data satisfies the invariant and abstracts to
+the ideal cell's bits with the same references and cursors. -/
+theorem cell_ops_sequence (ops : List (Nat × CellOp)) (hwf : ∀ p ∈ ops, p.2.WF) :
+    (runAll implI ops initImpl).1.map normO = (runAll specI ops initSpec).1 ∧
+    HeapRel R (runAll implI ops initImpl).2 (runAll specI ops initSpec).2 :=
+  runAll_sim sim_impl_spec ops init_rel hwf
+
+open CellSeq in
+/-- one cell-level step from related heaps (any heap, not only reachable ones) -/
+theorem cell_step_refines {h : List (GCell BitString)} {g : List (GCell Ideal)} (hr : HeapRel R h g) (t : Nat)
+    (op : CellOp) (hwf : op.WF) :
+    normO (step implI h t op).1 = (step specI g t op).1 ∧ HeapRel R (step implI h t op).2 (step specI g t op).2 :=
+  step_sim sim_impl_spec hr t op hwf
+
+open CellSeq in
+/-- the fifth `AddRef` is an error and changes nothing; `NextRef` at or beyond the last reference is an error and
+changes nothing (for either representation of the bits) -/
+theorem cell_ref_limits {β : Type} (I : BitsI β) (h : List (GCell β)) (t : Nat) (c : GCell β) (hc : h[t]? = some c) :
+    (∀ child, child < h.length → 4 ≤ c.refs.length → step I h t (.addRef child) = (.err errTooManyRefs, h)) ∧
+    (c.refs.length ≤ c.refCursor → step I h t .nextRef = (.err errNotEnoughRefs, h)) := by
+  constructor
+  · intro child hch h4
+    have h1 : ¬ child ≥ h.length := by omega
+    have h2 : ¬ c.refs.length < 4 := by omega
+    simp only [step, addRefH, hc, h1, h2, if_false]
+  · intro hk
+    simp only [step, nextRefH, hc, List.getElem?_eq_none hk]
+    by_cases h3 : c.refCursor > 3 <;> simp [h3]
+
+open CellSeq in
+/-- `NextRef` returns the referenced cell and resets THE CHILD's counters in the heap (`ref.ResetCounters()`): after the
+call the returned cell has reference cursor 0 and reset bits — also when the child is shared, and also when it is the
+target itself (then the target's own cursor is 0 again, not advanced). -/
+theorem cell_nextRef_resets_child {β : Type} (I : BitsI β) (h : List (GCell β)) (t id : Nat) (c : GCell β)
+    (hc : h[t]? = some c) (h3 : c.refCursor ≤ 3) (hid : c.refs[c.refCursor]? = some id) :
+    ∃ h', step I h t .nextRef = (.ok (.nat id), h') ∧
+      ∀ ch, h'[id]? = some ch → ch.refCursor = 0 ∧ ∃ b, ch.bits = I.reset b := by
+  have h3' : ¬ c.refCursor > 3 := by omega
+  simp only [step, nextRefH, hc, h3', if_false, hid]
+  cases hch : (h.set t { c with refCursor := c.refCursor + 1 })[id]? with
+  | none =>
+    refine ⟨_, rfl, ?_⟩
+    intro ch hch'
+    rw [hch] at hch'
+    cases hch'
+  | some ch0 =>
+    refine ⟨_, rfl, ?_⟩
+    intro ch hch'
+    have hlt : id < (h.set t { c with refCursor := c.refCursor + 1 }).length :=
+      (List.getElem?_eq_some_iff.mp hch).1
+    simp only [List.getElem?_set, hlt, if_true] at hch'
+    cases hch'
+    exact ⟨rfl, _, rfl⟩
 
 /-! ## Witnesses of the repaired defects (each replayed on the Go code: corpus/C06/defects.ops) -/
 
